@@ -122,6 +122,21 @@ def run_program(prog, scratch, k=0, sample_rate=None, rng_seed=None, accept=None
 
     lg = Logger(R)
     live, left = [], []
+    if prog.get("warmup"):
+        # untraced warm-up: functions that define a closure run once before tracing starts, so that closures created
+        # outside the traced session exist and can be called first (function lookup then has only caller locals to go by)
+        tmp = S.Rec(typer=None)
+        S.R = tmp
+        try:
+            for f in funcs:
+                if f["kind"] in ("nested", "closure") and f["flavour"] == "plain":
+                    try:
+                        getattr(mod, "_mtv_call_%d" % f["idx"])(*synth.distribute(f, []))
+                    except BaseException:
+                        pass
+        finally:
+            S.R = R
+        R.kept.extend(tmp.kept)
     if rng_seed is not None:
         random.seed(rng_seed)
     res.driver_error = None
@@ -155,6 +170,17 @@ def run_program(prog, scratch, k=0, sample_rate=None, rng_seed=None, accept=None
                         except TypeError:
                             if R.n > n0:
                                 R.calls[R.n]["state"] = "never-started"
+                elif op[0] == "callkept":
+                    if R.kept:
+                        fn = R.kept[op[1] % len(R.kept)]
+                        cid = R.pre(fn, ([op[1]],), {})
+                        R.calls[cid]["may"] = True  # resolvable only through the locals of caller frames
+                        try:
+                            r = fn([op[1]])
+                        except BaseException as e:
+                            R.exc(cid, e)
+                        else:
+                            R.post(cid, r)
                 elif live:
                     cid, g = live[op[1] % len(live)]
                     if op[0] == "leave":
